@@ -9,7 +9,7 @@ RULE = ('families with a known emission position, each on 1-3 interleaved keys, 
         'event being pushed: (peritem) random pipelines of per-item operators and running aggregates, also inside '
         'group_by/roll/split/time_split and tee_map: every output appears in the step of a source item, nothing is held back '
         'to the completion step; (window) roll/split/time_split/batch with to_list: the result of a window, segment or batch '
-        'appears in the step of its closing item (time_split also with a closing_mapper, closing item included or not); (zipwin) tumbling windows around tee_map(zip) of count(reduce) and a filter: the pair belongs to the closing step of its window and nothing pending survives a window; (final) reduce/last/to_list/pad_end: only in the completion step. '
+        'appears in the step of its closing item (time_split also with a closing_mapper, closing item included or not); (zipwin) tumbling windows around tee_map(zip) of count(reduce) and a filter: the pair belongs to the closing step of its window and nothing pending survives a window; (tee) tee_map over branches of different cadence: tuples appear in the step in which the join of the separately run branches completes them; (final) reduce/last/to_list/pad_end: only in the completion step. '
         'non-trivial = >= 3 source items in some key; distinct = distinct JSON')
 ASSUMPTIONS = ['take/first do not end a key early in multiplexed mode (specified behaviour)']
 
@@ -53,8 +53,18 @@ def generate(rng, tier):
     n = {'quick': 500, 'thorough': 10000, 'search': 300}[tier]
     cases = []
     for _ in range(n):
-        fam = rng.choice(['peritem', 'peritem', 'batch', 'roll', 'split', 'tsplit', 'final', 'zipwin'])
+        fam = rng.choice(['peritem', 'peritem', 'batch', 'roll', 'split', 'tsplit', 'final', 'zipwin', 'tee'])
         trace = muxgen.gen_trace(rng, muxgen.INT, nkeys=rng.choice([1, 2, 3]), sorted_=(fam == 'tsplit'))
+        if fam == 'tee':
+            # tee_map over branches of different cadence (windows, reducers, per-item): every tuple is emitted in the
+            # step in which the join of the separately run branches completes it (the timed join oracle of C08)
+            from harness.props import C08
+            c8 = C08.gen_case(rng, plain=False)
+            while c8['ctx'] != 'top':
+                c8 = C08.gen_case(rng, plain=False)
+            c8.update({'family': 'tee', 'par': None})
+            cases.append(c8)
+            continue
         if fam == 'peritem':
             ast = peritem_pipe(rng)
             par = None
@@ -87,6 +97,9 @@ def generate(rng, tier):
 
 
 def run_impl(case):
+    if case['family'] == 'tee':
+        from harness.props import C08
+        return C08.run_impl(case)
     return muxlib.run_mux(case['ast'], case['trace'])
 
 
@@ -98,6 +111,12 @@ def oracle(case, obs):
     if 'raised' in obs or muxprop.has_fatal(obs['steps']):
         return None
     fam = case['family']
+    if fam == 'tee':
+        from harness.props import C08
+        f = C08.oracle(case, obs)
+        if f:
+            f['sig'] = 'prompt:' + f['sig']
+        return f
     for lt in muxprop.lifetime_positions(case['trace']):
         xs = [dec(x) for x in lt['items']]
         n = len(xs)
